@@ -283,6 +283,31 @@ var c17Positions = []c17Pos{
 	}, true},
 	{"pointer to struct", func(e error) interface{} { return &c17ExpF{e} }, true},
 	{"Unsafe(struct{err})", func(e error) interface{} { return redact.Unsafe(c17ExpF{e}) }, false},
+	// an element with a classification of its own BEFORE the error in the same container: whatever it switches on
+	// or off (override, mode) must be back in place when the error is reached
+	{"Unsafe([]interface{}{RedactableString, err})", func(e error) interface{} {
+		return redact.Unsafe([]interface{}{redact.RedactableString("id"), e})
+	}, false},
+	{"Unsafe([]interface{}{Safe(1), RedactableBytes, err})", func(e error) interface{} {
+		return redact.Unsafe([]interface{}{redact.Safe(1), redact.RedactableBytes("rb"), e})
+	}, false},
+	{"Unsafe(struct{SafeFormatter; err})", func(e error) interface{} {
+		return redact.Unsafe(struct {
+			S safeFmtT
+			E error
+		}{safeFmtT{"k", "v"}, e})
+	}, false},
+	{"Safe([]interface{}{RedactableString, err})", func(e error) interface{} {
+		return redact.Safe([]interface{}{redact.RedactableString("id"), e})
+	}, true},
+	{"[]interface{}{RedactableString, err}", func(e error) interface{} { return []interface{}{redact.RedactableString("id"), e} }, true},
+	{"[]interface{}{Safe(1), Unsafe(2), SafeValue, err}", func(e error) interface{} {
+		return []interface{}{redact.Safe(1), redact.Unsafe(2), safeT("sv"), e}
+	}, true},
+	{"[]interface{}{Unsafe(err), err}", func(e error) interface{} { return []interface{}{redact.Unsafe(errT{"u"}), e} }, true},
+	{"map{a: Unsafe(x), b: err}", func(e error) interface{} {
+		return map[string]interface{}{"a": redact.Unsafe("x"), "b": e}
+	}, true},
 }
 
 var (
@@ -377,7 +402,7 @@ func c17EvalHook(cs c17Case, noHook string, seen func(string)) (string, string) 
 	if got != noHook {
 		return "hook-must-not-apply:" + c17Positions[cs.Pos].Name, fmt.Sprintf("%s with a hook installed = %q, but without a hook %q (no dispatch here: SafeFormatter/SafeMessager error, Unsafe(), unexported field, pointer, %%T/%%p)", c17Desc(cs), got, noHook)
 	}
-	if c17Positions[cs.Pos].Name == "Unsafe(err)" || c17Positions[cs.Pos].Name == "Unsafe(struct{err})" {
+	if strings.HasPrefix(c17Positions[cs.Pos].Name, "Unsafe(") {
 		if !allEnveloped([]byte(got[1 : len(got)-1])) {
 			return "unsafe-not-enveloped", fmt.Sprintf("%s = %q: not fully enveloped", c17Desc(cs), got)
 		}
